@@ -16,13 +16,13 @@ RULE = (
     "case = loop shape (self loop, 2-4 stage cycle, loop with side branch and fan-in - the side branch outside or inside the "
     "loop body -, forward jump over a diamond, forward jump followed by backward jumps that re-arm the bypassed stage) x "
     "requested iterations 0..limit+3 x _max_jumps in {absent,0,1,2,3,10,12} at workflow or stage level x (FIFO / shuffled "
-    "delivery with withheld acks / one message held back / 2-4 worker threads interleaved at SQL-statement granularity). Oracles: effective jumps <= limit; limit reached => source "
+    "delivery with withheld acks / one message held back / shuffled delivery with healthy recovery sweeps at random moments / 2-4 worker threads interleaved at SQL-statement granularity). Oracles: effective jumps <= limit; limit reached => source "
     "TERMINAL and workflow final; per-iteration ledger counts of every stage of the independently computed re-arm set "
     "== 1, stages outside it never re-run; forward jump: bypassed stages SKIPPED and never executed. Non-trivial = >=1 "
     "jump requested; distinct = (shape, body size, requested, limit, level, order class)."
 )
 ASSUMPTIONS = ["SQLite backend", "iteration of an execution = number of durable ->NOT_STARTED re-arm rows of its stage before it (audit log)"]
-MIN_OBS = {"effective_jumps": {"quick": 500, "thorough": 5000}, "limit_hits": {"quick": 30, "thorough": 300}, "interleaved_runs": {"quick": 100, "thorough": 1000}, "forward_then_backward_runs": {"quick": 5, "thorough": 50}}
+MIN_OBS = {"effective_jumps": {"quick": 500, "thorough": 5000}, "limit_hits": {"quick": 30, "thorough": 300}, "runs_with_recovery_sweeps": {"quick": 100, "thorough": 1000}, "interleaved_runs": {"quick": 100, "thorough": 1000}, "forward_then_backward_runs": {"quick": 5, "thorough": 50}}
 TIMEOUT = {"quick": 600, "thorough": 3000}
 DEFAULT_LIMIT = 10
 
@@ -72,11 +72,16 @@ def gen_cases(tier: str, seed: int) -> list[dict]:
                         continue
                     if times > 13 and times != 10**6:
                         continue
-                    for order in ("fifo", "random", "hold", "race"):
+                    for order in ("fifo", "random", "hold", "race", "sweep"):
                         cases.append({"shape": shape, "body": rng.randint(2, 4), "times": times, "max_jumps": mj, "level": rng.choice(["wf", "stage"]), "order": order, "listing": rng.choice(["topo", "reversed", "shuffled"]), "seed": rng.randrange(1 << 30)})
         for back in (1, 2, 3):
             for order in ("fifo", "random", "race"):
                 cases.append({"shape": "fwdback", "times": back, "order": order, "seed": rng.randrange(1 << 30)})
+        for shape in ("self", "loop", "side"):
+            for times in (1, 2):
+                sd = rng.randrange(1 << 30)
+                for chunk in range(6):
+                    cases.append({"shape": shape, "body": 2, "times": times, "max_jumps": None, "level": "wf", "order": "sweep_enum", "listing": "topo", "seed": sd, "chunk": chunk, "chunks": 6})
     return cases
 
 
@@ -139,9 +144,43 @@ def _fwdback(case: dict) -> dict:
     return {"violations": out[:6], "obs": dict(obs), "keys": [f"fwdback:{back}:{case['order']}"]}
 
 
+def _sweep_enum(case: dict) -> dict:
+    """A healthy recovery sweep before EVERY step of the loop's reference run (in particular between the commit of
+    the task that asked for the jump and the handling of its JumpToStage), each under several shuffled delivery
+    orders so that whatever the sweep queued may be delivered late: judged by the ordinary loop oracle."""
+    spec = _spec(case)
+    ref = delivery_run(spec, max_steps=1500)
+    rng = random.Random(case["seed"])
+    obs: Counter = Counter()
+    keys: list = []
+    violations: list = []
+    for at in range(1, ref.steps + 1):
+        if at % case.get("chunks", 1) != case.get("chunk", 0):
+            continue
+        for rep_ in range(12):
+            # repetitions 0-2: shuffled order; 3-11: in-order delivery with the rep-th RunTask held back 8 / 16 steps
+            sub = dict(case, order="sweep_at", _at=at, seed=rng.randrange(1 << 30), _hold=None if rep_ < 3 else {"type": "RunTask", "nth": (rep_ - 3) % 6 + (at // 8), "steps": 8 if rep_ % 2 else 16})
+            r = run_case(sub)
+            for k, v in r["obs"].items():
+                obs[k] += v
+            keys += r["keys"]
+            for x in r["violations"]:
+                x.update(sweep_before_step=at)
+            violations += r["violations"]
+    seen = set()
+    uniq = []
+    for x in violations:
+        if x["sig"] not in seen:
+            seen.add(x["sig"])
+            uniq.append(x)
+    return {"violations": uniq[:8], "obs": dict(obs), "keys": sorted(set(keys))[:50]}
+
+
 def run_case(case: dict) -> dict:
     if case.get("shape") == "fwdback":
         return _fwdback(case)
+    if case.get("order") == "sweep_enum":
+        return _sweep_enum(case)
     spec = _spec(case)
     rng = random.Random(case["seed"])
     hold = None
@@ -159,6 +198,15 @@ def run_case(case: dict) -> dict:
             obs["scheduler_failed"] += 1
             return {"violations": [], "obs": dict(obs), "keys": [], "inconclusive": info.get("failed")}
         obs["interleaved_runs"] += 1
+    elif order == "sweep_at":
+        run = delivery_run(spec, seed=case["seed"], order="fifo" if case.get("_hold") else "random", noack_p=0.0, hold=case.get("_hold"), injections=[{"at": case["_at"], "do": "recovery", "times": 1}], max_steps=1800)
+        obs["runs_with_recovery_sweeps"] += 1
+    elif order == "sweep":
+        # healthy recovery sweeps at random moments (also right after a task asked for a jump, while its
+        # JumpToStage is still queued) under shuffled delivery: a sweep must not add executions to any iteration
+        inj = [{"at": rng.randrange(1, 60), "do": "recovery", "times": 1} for _ in range(rng.randint(2, 8))]
+        run = delivery_run(spec, seed=case["seed"], order="random", noack_p=0.1, injections=inj, max_steps=1800)
+        obs["runs_with_recovery_sweeps"] += 1
     else:
         run = delivery_run(spec, seed=case["seed"], order=order, noack_p=0.0 if case["order"] == "fifo" else 0.2, hold=hold, max_steps=1500)
     out = []
